@@ -2076,6 +2076,10 @@ Vsetname(int32       vkey, /* IN: vgroup key */
 
     name_len = strlen(vgname); /* shortcut of length of the given name */
 
+    /* the vgroup record stores the length of the name in 16 bits */
+    if (name_len > 65535)
+        HGOTO_ERROR(DFE_ARGS, FAIL);
+
     /* if name exists, release it */
     free(vg->vgname);
 
@@ -2143,6 +2147,10 @@ Vsetclass(int32       vkey, /* IN: vgroup key */
      */
 
     classname_len = strlen(vgclass); /* length of the given class name */
+
+    /* the vgroup record stores the length of the class name in 16 bits */
+    if (classname_len > 65535)
+        HGOTO_ERROR(DFE_ARGS, FAIL);
 
     /* if name exists, release it */
     free(vg->vgclass);
